@@ -32,8 +32,27 @@ func parseRegs(s string) []regSpec {
 
 func buildRegs(specs []regSpec) *modbus.Regs {
 	regs := &modbus.Regs{}
+	// the map is built the way applications build it: some registers one by one, then whole runs of consecutive addresses
+	// with one AddReg(start, count) each — runs that overlap registers already there
+	addrs := map[int]bool{}
 	for _, rs := range specs {
-		regs.AddReg(rs.addr, 1)
+		addrs[rs.addr] = true
+	}
+	for i, rs := range specs {
+		if i%3 == 1 {
+			regs.AddReg(rs.addr, 1)
+		}
+	}
+	for _, rs := range specs {
+		if !addrs[rs.addr-1] {
+			cnt := 1
+			for addrs[rs.addr+cnt] {
+				cnt++
+			}
+			regs.AddReg(rs.addr, cnt)
+		}
+	}
+	for _, rs := range specs {
 		_ = regs.WriteReg(rs.addr, uint16(rs.val))
 	}
 	for _, rs := range specs {
